@@ -7,6 +7,7 @@
  * calling the real uv_async_send.  Handles are malloc'ed and freed in their close callback.
  *
  * stdin:  cfg nh=<n> close=<h,..|-> senders=<h,h;h|-> sig=<t:victim,..|->
+ *         (cfg also takes eintr=<n>: EINTR answers allowed per run; cap=<n|->: counter saturation -> EAGAIN)
  *         dfs [maxdepth]           stateless DFS over all schedules with visited-state pruning
  *         rand <seed> <runs>       random schedules, each run to a terminal state
  *         sched [noguard] tok..    one explicit schedule
@@ -41,7 +42,7 @@
 #endif
 
 enum { K_WAIT = 1, K_BEGIN, K_LOADX, K_LOAD, K_STORE, K_XCHG, K_FADD, K_READ, K_WRITE, K_INCB };
-enum { CMD_STEP = 0, CMD_CLOSE = 1, CMD_CLOSECB = 2 };   /* CMD_CLOSE + 16*h */
+enum { CMD_STEP = 0, CMD_CLOSE = 1, CMD_CLOSECB = 2, CMD_EINTR = 3 };   /* CMD_CLOSE + 16*h */
 
 #define MAXH 4
 #define MAXS 4
@@ -64,6 +65,8 @@ static struct { int h, k, seq, active; } S[MAXS];
 static int cb_of = -1;                    /* handle whose callback the loop thread is in */
 static int closing_now = -1;              /* handle whose uv_close is in progress */
 static uint64_t efd_count;
+static uint64_t efd_cap;                  /* cfg cap=<n>: the simulated counter saturates here (write -> EAGAIN); 0 = never */
+static int eintr_budget, ei_left;         /* cfg eintr=<n>: EINTR answers the environment may give per run */
 static int efd_fd = -1;
 static int guard = 1;
 static char effbuf[256];
@@ -132,7 +135,7 @@ static int sched_atomic(int kind, _Atomic int* p, int v) {
 
 static ssize_t sched_read(int fd, void* buf, size_t n) {
   if (fd != efd_fd || sched_self < 0) return read(fd, buf, n);
-  sched_park(K_READ, NULL, 0);
+  if (sched_park(K_READ, NULL, 0) == CMD_EINTR) { eff_add("drain EINTR"); errno = EINTR; return -1; }
   if (sched_unwinding) { errno = EAGAIN; return -1; }
   eff_add("drain");
   if (efd_count == 0) { errno = EAGAIN; return -1; }
@@ -142,8 +145,9 @@ static ssize_t sched_read(int fd, void* buf, size_t n) {
 
 static ssize_t sched_write(int fd, const void* buf, size_t n) {
   if (fd != efd_fd || sched_self < 0) return write(fd, buf, n);
-  sched_park(K_WRITE, NULL, 0);
+  if (sched_park(K_WRITE, NULL, 0) == CMD_EINTR) { eff_add("write EINTR"); errno = EINTR; return -1; }
   if (sched_unwinding) return (ssize_t) n;
+  if (efd_cap && efd_count >= efd_cap) { eff_add("write EAGAIN"); errno = EAGAIN; return -1; }
   eff_add("write");
   efd_count += 1;
   return (ssize_t) n;
@@ -269,10 +273,10 @@ static void sender_fn(int id) {
 }
 
 /* ------------------------------------------------------------------ state, enabled set */
-typedef struct { char kind; int arg; } tok_t;    /* 's' t | 'l' | 'c' h | 'f' */
+typedef struct { char kind; int arg; } tok_t;    /* 's' t | 'e' t (write of sender t answers EINTR) | 'i' (loop's read answers EINTR) | 'l' | 'c' h | 'f' */
 
 static void tok_str(tok_t k, char* b) {
-  if (k.kind == 'l' || k.kind == 'f') sprintf(b, "%c", k.kind); else sprintf(b, "%c%d", k.kind, k.arg);
+  if (k.kind == 'l' || k.kind == 'f' || k.kind == 'i') sprintf(b, "%c", k.kind); else sprintf(b, "%c%d", k.kind, k.arg);
 }
 
 static int sender_midsend(int t) { return !sched_done(t + 1) && sched_t[t + 1].kind != K_BEGIN; }
@@ -286,8 +290,12 @@ static int enabled_set(tok_t* out) {
   sched_thread* lt = &sched_t[0];
   for (t = 0; t < ns; t++)
     if (!sched_done(t + 1) && !interrupted(t)) { out[n].kind = 's'; out[n++].arg = t; }
+  if (ei_left > 0)
+    for (t = 0; t < ns; t++)
+      if (!sched_done(t + 1) && !interrupted(t) && sched_t[t + 1].kind == K_WRITE) { out[n].kind = 'e'; out[n++].arg = t; }
   if (!interrupted(-1)) {
     int lrun = 0;
+    if (ei_left > 0 && lt->kind == K_READ) { out[n].kind = 'i'; out[n++].arg = 0; }
     switch (lt->kind) {
       case K_WAIT: lrun = efd_count > 0; break;
       case K_LOAD: lrun = is_busy(lt->addr) ? (*(volatile int*) lt->addr == 0) : 1; break;
@@ -347,7 +355,7 @@ static char statebuf[1024];
 static const char* state_str(void) {
   char* p = statebuf; char b[32], qs[64], hls[64];
   sched_thread* lt = &sched_t[0];
-  int h, t, n; tok_t en[16];
+  int h, t, n; tok_t en[24];
   p += sprintf(p, "efd=%llu lpc=", (unsigned long long) efd_count);
   switch (lt->kind) {
     case K_WAIT: p += sprintf(p, "idle"); break;
@@ -379,7 +387,7 @@ static const char* state_str(void) {
     else if (st->kind != K_BEGIN && st->kind != SCHED_K_DONE) { sprintf(ob, "k%d", st->kind); pc = ob; }
     p += sprintf(p, " t%d:%s,h%d,k%d,q%d", t, pc, S[t].h, S[t].k, S[t].seq);
   }
-  p += sprintf(p, " | en=");
+  p += sprintf(p, " | ei=%d en=", ei_left);
   n = enabled_set(en);
   for (t = 0; t < n; t++) { tok_str(en[t], b); p += sprintf(p, "%s%s", t ? "," : "", b); }
   return statebuf;
@@ -421,7 +429,7 @@ static void start_run(void) {
   memset(closing_f, 0, sizeof closing_f); memset(unlinked, 0, sizeof unlinked); memset(freed, 0, sizeof freed); memset(released, 0, sizeof released);
   memset(pub, 0, sizeof pub); memset(seen, 0, sizeof seen); memset(cbs, 0, sizeof cbs);
   memset(eff, 0, sizeof eff); memset(completed, 0, sizeof completed); memset(S, 0, sizeof S);
-  cb_of = closing_now = -1; efd_count = 0; viol[0] = 0; pathlen = 0; effbuf[0] = 0;
+  cb_of = closing_now = -1; efd_count = 0; ei_left = eintr_budget; viol[0] = 0; pathlen = 0; effbuf[0] = 0;
   for (h = 0; h < nh; h++) {
     H[h] = malloc(sizeof(uv_async_t));
     if (uv_async_init(L, H[h], async_cb)) { fprintf(stderr, "uv_async_init failed\n"); exit(3); }
@@ -451,7 +459,7 @@ static void end_run(void) {
 }
 
 static int tok_enabled(tok_t k) {
-  tok_t en[16]; int n = enabled_set(en);
+  tok_t en[24]; int n = enabled_set(en);
   for (int i = 0; i < n; i++) if (en[i].kind == k.kind && en[i].arg == k.arg) return 1;
   return 0;
 }
@@ -483,7 +491,9 @@ static int do_tok(tok_t k, int print) {
       return 0;
     }
     sched_step(k.arg + 1, CMD_STEP);
-  } else if (k.kind == 'l') sched_step(0, CMD_STEP);
+  } else if (k.kind == 'e') { ei_left--; sched_step(k.arg + 1, CMD_EINTR); }
+  else if (k.kind == 'i') { ei_left--; sched_step(0, CMD_EINTR); }
+  else if (k.kind == 'l') sched_step(0, CMD_STEP);
   else if (k.kind == 'c') sched_step(0, CMD_CLOSE + 16 * k.arg);
   else if (k.kind == 'f') sched_step(0, CMD_CLOSECB);
   check_state();
@@ -505,7 +515,7 @@ static int vis_add(uint64_t k) {          /* 1 = new */
   vis[j] = k; visn++; return 1;
 }
 
-typedef struct { tok_t en[16]; int n, idx; uint64_t sh; } frame_t;
+typedef struct { tok_t en[24]; int n, idx; uint64_t sh; } frame_t;
 static frame_t stack[512];
 
 static void dfs(int maxdepth) {
@@ -558,11 +568,11 @@ static void rand_runs(uint64_t seed, int runs) {
     start_run();
     printf("run :: %s\n", state_str());
     for (int d = 0; d < 400; d++) {
-      tok_t en[16]; int n = enabled_set(en), w[16], tot = 0, i; uint64_t x;
+      tok_t en[24]; int n = enabled_set(en), w[24], tot = 0, i; uint64_t x;
       if (n == 0) break;
       /* close / close-callback choices are taken less often; a chosen thread tends to keep running for a while
          and then get preempted (preemption inside the few-instruction windows is the point) */
-      for (i = 0; i < n; i++) { w[i] = (en[i].kind == 'c' || en[i].kind == 'f') ? 1 : 4; if (i == sticky) w[i] += 6; tot += w[i]; }
+      for (i = 0; i < n; i++) { w[i] = (en[i].kind == 'c' || en[i].kind == 'f' || en[i].kind == 'e' || en[i].kind == 'i') ? 1 : 4; if (i == sticky) w[i] += 6; tot += w[i]; }
       x = rnd() % tot;
       for (i = 0; i < n; i++) { if (x < (uint64_t) w[i]) break; x -= w[i]; }
       sticky = (rnd() % 3 == 0) ? -1 : i;
@@ -576,8 +586,8 @@ static void rand_runs(uint64_t seed, int runs) {
 
 static int parse_tok(const char* w, tok_t* k) {
   k->kind = w[0]; k->arg = 0;
-  if (w[0] == 'l' || w[0] == 'f') return w[1] == 0;
-  if ((w[0] == 's' || w[0] == 'c') && w[1] >= '0' && w[1] <= '9' && w[2] == 0) { k->arg = w[1] - '0'; return 1; }
+  if (w[0] == 'l' || w[0] == 'f' || w[0] == 'i') return w[1] == 0;
+  if ((w[0] == 's' || w[0] == 'c' || w[0] == 'e') && w[1] >= '0' && w[1] <= '9' && w[2] == 0) { k->arg = w[1] - '0'; return 1; }
   return 0;
 }
 
@@ -586,7 +596,7 @@ static void parse_cfg(char* line) {
   snprintf(cfgline, sizeof cfgline, "%s", line);
   cfgline[strcspn(cfgline, "\r\n")] = 0;
   for (char* p = strtok(line, " \t\r\n"); p && n < 16; p = strtok(NULL, " \t\r\n")) w[n++] = p;
-  nh = ns = 0; free_in_cb = 0; memset(closable, 0, sizeof closable); memset(nprog, 0, sizeof nprog);
+  nh = ns = 0; free_in_cb = 0; eintr_budget = 0; efd_cap = 0; memset(closable, 0, sizeof closable); memset(nprog, 0, sizeof nprog);
   for (i = 0; i < MAXS; i++) sigvictim[i] = -2;
   for (i = 1; i < n; i++) {
     char* v = strchr(w[i], '=');
@@ -594,6 +604,8 @@ static void parse_cfg(char* line) {
     *v++ = 0;
     if (!strcmp(w[i], "nh")) nh = atoi(v);
     else if (!strcmp(w[i], "free")) free_in_cb = !strcmp(v, "cb");
+    else if (!strcmp(w[i], "eintr")) eintr_budget = atoi(v);
+    else if (!strcmp(w[i], "cap")) efd_cap = (*v == '-') ? 0 : (uint64_t) atoi(v);
     else if (!strcmp(w[i], "close")) { if (*v != '-') for (char* p = v; *p; p++) if (*p >= '0' && *p <= '9' && *p - '0' < MAXH) closable[*p - '0'] = 1; }
     else if (!strcmp(w[i], "senders")) {
       if (*v == '-') continue;
